@@ -119,6 +119,19 @@ def base_configs():
     return [dict(lazy=l, cache=c) for l in (True, False) for c in (True, False)]
 
 
+N_FAMILY_SEEDS = 3      # the generated family has this many (validated) windows
+
+
+def gen_families(seed):
+    """the thorough tier's generated scenarios for this seed (window = seed mod N_FAMILY_SEEDS)"""
+    fs = seed % N_FAMILY_SEEDS
+    n2 = int(os.environ.get("VERIF_GEN2", "1500"))
+    n3 = int(os.environ.get("VERIF_GEN3", "1200"))
+    fam2, tot2 = scenarios.generated(2, 2, seed=fs, limit=n2, shifts=(1, 2))
+    fam3, tot3 = scenarios.generated(3, 3, seed=fs, limit=n3)
+    return fs, fam2, tot2, fam3, tot3
+
+
 def quick_jobs(seed=0):
     jobs = []
     for name, scen in scenarios.CATALOGUE.items():
@@ -126,6 +139,14 @@ def quick_jobs(seed=0):
             for b in (0, 1):
                 jobs.append(dict(name=name, scen=scen, cfg=cfg, budget=b,
                                  max_exec=6000))
+    # a slice of the generated family (the first scenarios of the thorough tier's window)
+    fs, fam2, _, fam3, _ = gen_families(seed)
+    for i, scen in enumerate(fam2[:int(os.environ.get("VERIF_QGEN2", "160"))]):
+        for cfg in base_configs():
+            jobs.append(dict(name=f"gen2-{fs}-{i}", scen=scen, cfg=cfg, budget=0, max_exec=4000))
+    for i, scen in enumerate(fam3[:int(os.environ.get("VERIF_QGEN3", "80"))]):
+        for cfg in base_configs():
+            jobs.append(dict(name=f"gen3-{fs}-{i}", scen=scen, cfg=cfg, budget=0, max_exec=3000))
     return jobs
 
 
@@ -160,18 +181,16 @@ def thorough_jobs(seed=0):
         for cfg in base_configs():
             for b in (0, 1, 2):
                 jobs.append(dict(name=name, scen=scen, cfg=cfg, budget=b, max_exec=20000))
-    n2 = int(os.environ.get("VERIF_GEN2", "1500"))
-    n3 = int(os.environ.get("VERIF_GEN3", "1200"))
-    fam2, tot2 = scenarios.generated(2, 2, seed=seed, limit=n2, shifts=(1, 2))
-    fam3, tot3 = scenarios.generated(3, 3, seed=seed, limit=n3)
+    fs, fam2, tot2, fam3, tot3 = gen_families(seed)
     for i, scen in enumerate(fam2):
         for cfg in base_configs():
             for b in (0, 1):
-                jobs.append(dict(name=f"gen2-{seed}-{i}", scen=scen, cfg=cfg, budget=b, max_exec=4000))
+                jobs.append(dict(name=f"gen2-{fs}-{i}", scen=scen, cfg=cfg, budget=b, max_exec=4000))
     for i, scen in enumerate(fam3):
         for cfg in base_configs():
-            jobs.append(dict(name=f"gen3-{seed}-{i}", scen=scen, cfg=cfg, budget=0, max_exec=3000))
-    return jobs, dict(gen2_total=tot2, gen2_taken=len(fam2), gen3_total=tot3, gen3_taken=len(fam3))
+            jobs.append(dict(name=f"gen3-{fs}-{i}", scen=scen, cfg=cfg, budget=0, max_exec=3000))
+    return jobs, dict(family_window=fs, gen2_total=tot2, gen2_taken=len(fam2), gen3_total=tot3,
+                      gen3_taken=len(fam3))
 
 
 # ---------------------------------------------------------------------------------------
